@@ -8,6 +8,7 @@ CONSTANTS
   CloseKinds = ${CloseKinds}
   MaxCalls = ${MaxCalls}
   Strict = ${Strict}
+  EagerPark = FALSE
   Allowed <- MCAllowed
   Budget <- MCBudget
 INIT InitE
